@@ -14,7 +14,16 @@ import NeumannModel.RaftWal.Lemmas
       the votes it granted, the entries it acknowledged to a leader or accepted as leader
       (`microAllG σ.ghost (ms.take k)` for every `k` consistent with the records found on disk).
   `restart` is `RaftNode::with_wal`; `recoverBytes` is `RaftWal::open` + `replay` + `from_entries`.
-  `_partial`: handlers other than `install_snapshot` (see `recovered_log_contains_acked_full`).
+  Events are ALL handlers of the model, `install_snapshot` included (code after fix 73e56b11: the
+  snapshot's entries are written as `LogEntryFull` records, then `LogTruncate{last+1}`, before the
+  in-memory switch).  When an obligation about an acknowledged entry ends is fixed by `microG`
+  (Model.lean): at the WAL record by which a later leader's order starts to drop the entry — a conflict
+  truncation at or below its index, or a snapshot entry of the same index and different content.
+  What is NOT claimed (outside C10's three obligations): the install is not atomic in the WAL; a crash
+  after `k` of its `n` `LogEntryFull` records restarts the node with the log
+  `snapshot[1..k] ++ old[k+1..]`, a log it never held in memory (`snapshot_install_not_atomic_witness`).
+  Every obligation still in force holds for that log (the theorems below), its log-matching with the
+  leader is a matter for C01.
 -/
 namespace Neumann.RaftWal.Props
 open Neumann.RaftWal Neumann.FramedLog
@@ -35,7 +44,7 @@ def ghostAt (id : Nat) (acts : List Act) (e : Event) (k : Nat) : Ghost :=
     invariant again (so the argument repeats for any further crash), and the repaired file is the
     exact encoding of the surviving records. -/
 theorem byte_crash_refines_record_crash (h : GoodSer crc ser deser) (id : Nat) (acts : List Act) (e : Event)
-    (n : Nat) (hacts : ∀ a ∈ acts, NoSnapAct a) (he : NoSnap e)
+    (n : Nat)
     (hn : (fileOf crc ser (exec (initSys id) acts).dur).length ≤ n) :
     ∃ s cnt en, recoverBytes crc deser (crashFile crc ser id acts e n) = .ok s cnt en ∧
       ∀ k, (exec (initSys id) acts).dur.length + (recs ((step (exec (initSys id) acts).node e).micros.take k)).length = cnt →
@@ -51,16 +60,16 @@ theorem byte_crash_refines_record_crash (h : GoodSer crc ser deser) (id : Nat) (
     simp only [execAct]
     rw [recs_take, hj]
   refine ⟨by rw [hd], by rw [hd]; exact hrep, ?_⟩
-  exact inv_execAct _ _ (inv_exec _ _ (inv_init id) hacts) he
+  exact inv_execAct _ _ (inv_exec _ _ (inv_init id))
 
 /-- **Term.** The restarted node's term is at least every term it had acted in. -/
-theorem recovered_term_ge_acted_partial (h : GoodSer crc ser deser) (id : Nat) (acts : List Act) (e : Event)
-    (n : Nat) (hacts : ∀ a ∈ acts, NoSnapAct a) (he : NoSnap e)
+theorem recovered_term_ge_acted (h : GoodSer crc ser deser) (id : Nat) (acts : List Act) (e : Event)
+    (n : Nat)
     (hn : (fileOf crc ser (exec (initSys id) acts).dur).length ≤ n) :
     ∃ s cnt en, recoverBytes crc deser (crashFile crc ser id acts e n) = .ok s cnt en ∧
       ∀ k, (exec (initSys id) acts).dur.length + (recs ((step (exec (initSys id) acts).node e).micros.take k)).length = cnt →
         (ghostAt id acts e k).actedTerm ≤ (restart id s).term := by
-  obtain ⟨s, cnt, en, hrec, hall⟩ := byte_crash_refines_record_crash crc ser deser h id acts e n hacts he hn
+  obtain ⟨s, cnt, en, hrec, hall⟩ := byte_crash_refines_record_crash crc ser deser h id acts e n hn
   refine ⟨s, cnt, en, hrec, fun k hk => ?_⟩
   obtain ⟨hs, _, hinv⟩ := hall k hk
   have := hinv.2.2.1
@@ -69,29 +78,30 @@ theorem recovered_term_ge_acted_partial (h : GoodSer crc ser deser) (id : Nat) (
 
 /-- **Vote.** For every vote `(t, c)` the node had granted: after restart it is past term `t`, or still
     in term `t` with `votedFor = c`. -/
-theorem recovered_vote_eq_cast_partial (h : GoodSer crc ser deser) (id : Nat) (acts : List Act) (e : Event)
-    (n : Nat) (hacts : ∀ a ∈ acts, NoSnapAct a) (he : NoSnap e)
+theorem recovered_vote_eq_cast (h : GoodSer crc ser deser) (id : Nat) (acts : List Act) (e : Event)
+    (n : Nat)
     (hn : (fileOf crc ser (exec (initSys id) acts).dur).length ≤ n) :
     ∃ s cnt en, recoverBytes crc deser (crashFile crc ser id acts e n) = .ok s cnt en ∧
       ∀ k, (exec (initSys id) acts).dur.length + (recs ((step (exec (initSys id) acts).node e).micros.take k)).length = cnt →
         ∀ v ∈ (ghostAt id acts e k).votes,
           v.1 < (restart id s).term ∨ (v.1 = (restart id s).term ∧ (restart id s).votedFor = some v.2) := by
-  obtain ⟨s, cnt, en, hrec, hall⟩ := byte_crash_refines_record_crash crc ser deser h id acts e n hacts he hn
+  obtain ⟨s, cnt, en, hrec, hall⟩ := byte_crash_refines_record_crash crc ser deser h id acts e n hn
   refine ⟨s, cnt, en, hrec, fun k hk v hv => ?_⟩
   obtain ⟨hs, _, hinv⟩ := hall k hk
   have := hinv.2.2.2.1 v hv
   rw [← hs] at this
   exact this
 
-/-- **Log.** Every entry the node had acknowledged to a leader or accepted as leader (and that no
-    conflict truncation ordered by a later leader had begun to remove) is in the restarted node's log. -/
-theorem recovered_log_contains_acked_partial (h : GoodSer crc ser deser) (id : Nat) (acts : List Act) (e : Event)
-    (n : Nat) (hacts : ∀ a ∈ acts, NoSnapAct a) (he : NoSnap e)
+/-- **Log.** Every entry the node had acknowledged to a leader, accepted as leader or installed from a
+    snapshot (and that no conflict truncation / snapshot overwrite ordered by a later leader had begun
+    to remove, see `microG`) is in the restarted node's log. -/
+theorem recovered_log_contains_acked (h : GoodSer crc ser deser) (id : Nat) (acts : List Act) (e : Event)
+    (n : Nat)
     (hn : (fileOf crc ser (exec (initSys id) acts).dur).length ≤ n) :
     ∃ s cnt en, recoverBytes crc deser (crashFile crc ser id acts e n) = .ok s cnt en ∧
       ∀ k, (exec (initSys id) acts).dur.length + (recs ((step (exec (initSys id) acts).node e).micros.take k)).length = cnt →
         ∀ a ∈ (ghostAt id acts e k).acked, a ∈ (restart id s).log := by
-  obtain ⟨s, cnt, en, hrec, hall⟩ := byte_crash_refines_record_crash crc ser deser h id acts e n hacts he hn
+  obtain ⟨s, cnt, en, hrec, hall⟩ := byte_crash_refines_record_crash crc ser deser h id acts e n hn
   refine ⟨s, cnt, en, hrec, fun k hk a ha => ?_⟩
   obtain ⟨hs, _, hinv⟩ := hall k hk
   have hmem := hinv.2.2.2.2 a ha
@@ -100,23 +110,17 @@ theorem recovered_log_contains_acked_partial (h : GoodSer crc ser deser) (id : N
     rw [hs]; exact ⟨_, hinv.2.1, hinv.1.2.2⟩
   have hsync := (restart_sync id s hshape).1.2.2
   rw [hsync] at hmem
-  obtain ⟨b, hb, hbe⟩ := List.mem_map.mp hmem
-  have : b = a := by
-    cases a; cases b
-    simp only [entKV, encEntry, Prod.mk.injEq, List.cons.injEq] at hbe
-    obtain ⟨h1, _, h2, h3, _⟩ := hbe
-    subst h1; subst h2; subst h3; rfl
-  rw [← this]; exact hb
+  exact mem_map_entKV.mp hmem
 
 /-- The same three facts for a node that is simply running (or was restarted any number of times):
     its memory equals what a restart would recover, and the obligations hold. -/
-theorem running_node_matches_its_log_partial (id : Nat) (acts : List Act) (hacts : ∀ a ∈ acts, NoSnapAct a) :
+theorem running_node_matches_its_log (id : Nat) (acts : List Act) :
     let σ := exec (initSys id) acts
     σ.node.term = (fromEntries σ.dur).term ∧ σ.node.votedFor = (fromEntries σ.dur).votedFor
       ∧ σ.node.log = (restart id (fromEntries σ.dur)).log
       ∧ σ.ghost.actedTerm ≤ σ.node.term
       ∧ (∀ a ∈ σ.ghost.acked, a ∈ σ.node.log) := by
-  have hinv := inv_exec _ _ (inv_init id) hacts
+  have hinv := inv_exec (initSys id) acts (inv_init id)
   obtain ⟨hS, hwf, hsat⟩ := hinv
   have hshape : Shape (fromEntries (exec (initSys id) acts).dur) := ⟨_, hwf, hS.2.2⟩
   refine ⟨hS.1, hS.2.1, ?_, by rw [hS.1]; exact hsat.1, ?_⟩
@@ -125,42 +129,57 @@ theorem running_node_matches_its_log_partial (id : Nat) (acts : List Act) (hacts
   · intro a ha
     have hmem := hsat.2.2 a ha
     rw [hS.2.2] at hmem
-    obtain ⟨b, hb, hbe⟩ := List.mem_map.mp hmem
-    have : b = a := by
-      cases a; cases b
-      simp only [entKV, encEntry, Prod.mk.injEq, List.cons.injEq] at hbe
-      obtain ⟨h1, _, h2, h3, _⟩ := hbe
-      subst h1; subst h2; subst h3; rfl
-    rw [← this]; exact hb
+    exact mem_map_entKV.mp hmem
 
 /-- **Corollary: no double vote across restarts.** Whatever the history — any handler calls, any
     number of crashes, each at any micro step (equivalently, by `byte_crash_refines_record_crash`, at
     any byte of the record being written) — the node never announces votes for two different
     candidates in one term. -/
-theorem no_double_vote_across_restarts_partial (id : Nat) (acts : List Act) (hacts : ∀ a ∈ acts, NoSnapAct a)
+theorem no_double_vote_across_restarts (id : Nat) (acts : List Act)
     (t c1 c2 : Nat) (h1 : (t, c1) ∈ (exec (initSys id) acts).ghost.votes)
     (h2 : (t, c2) ∈ (exec (initSys id) acts).ghost.votes) : c1 = c2 := by
-  have hf := votesFn_exec (initSys id) acts (inv_init id) (by intro v hv; simp [initSys] at hv) hacts
+  have hf := votesFn_exec (initSys id) acts (inv_init id) (by intro v hv; simp [initSys] at hv)
   exact hf (t, c1) h1 (t, c2) h2 rfl
 
-/-- Full statement including `install_snapshot` events: kept as a definition, NOT proved — the code
-    replaces the in-memory log by the snapshot's entries without logging them (raft.rs
-    `install_snapshot_entries`), so entries acknowledged afterwards on top of the snapshot are not
-    recoverable from the WAL.  `snapshot_install_not_durable_witness` below is the model-level witness;
-    the harness probes the real node (stream `snapshot`). -/
-def recovered_log_contains_acked_full : Prop :=
-  ∀ (id : Nat) (acts : List Act),
-    let σ := exec (initSys id) acts
+/-- **Snapshot install is durable, local suffix included.** Whatever the node held before (entries
+    conflicting with the snapshot, a suffix beyond the snapshot's last index, …): once
+    `install_snapshot` has returned `Ok`, a restart recovers exactly the snapshot's entries. -/
+theorem installed_snapshot_is_the_recovered_log (id : Nat) (acts : List Act) (li lt : Nat) (ents : List (Nat × Nat))
+    (hok : (step (exec (initSys id) acts).node (.installSnapshot li lt ents)).reply = .snapshot true) :
+    let σ := exec (initSys id) (acts ++ [.ev (.installSnapshot li lt ents)])
+    (restart id (fromEntries σ.dur)).log = mkEntries 0 ents ∧ σ.node.log = mkEntries 0 ents := by
+  have hrun := running_node_matches_its_log id (acts ++ [.ev (.installSnapshot li lt ents)])
+  have hlog : (exec (initSys id) (acts ++ [.ev (.installSnapshot li lt ents)])).node.log = mkEntries 0 ents := by
+    simp only [exec, List.foldl_append, List.foldl_cons, List.foldl_nil, execAct]
+    simp only [exec] at hok
+    generalize (List.foldl execAct (initSys id) acts).node = n at *
+    simp only [step] at hok ⊢
+    split at hok
+    · simp at hok
+    · split at hok
+      · simp at hok
+      · split at hok
+        · simp at hok
+        · next h1 h2 h3 => simp only [h2, h3]; simp
+  exact ⟨by rw [← hrun.2.2.1]; exact hlog, hlog⟩
+
+/-- The statement for the code BEFORE fix 73e56b11 (`installSnapshotOld`: the in-memory log is replaced
+    by the snapshot's entries and nothing about it is logged): an old-style install somewhere in the
+    history.  False — `snapshot_install_not_durable_witness`. -/
+def recovered_log_contains_acked_old_install : Prop :=
+  ∀ (id : Nat) (pre post : List Act) (lt : Nat) (ents : List (Nat × Nat)),
+    let σ0 := exec (initSys id) pre
+    let σ := exec (applyOut σ0 (installSnapshotOld σ0.node lt ents)) post
     ∀ a ∈ σ.ghost.acked, a ∈ (restart id (fromEntries σ.dur)).log
 
-/-- follower holds [1,2]; a snapshot with entries 1..4 is installed; the leader's next AppendEntries
-    (prev = 4) is acknowledged with match_index 5; after a restart entries 3 and 4 are gone. -/
-theorem snapshot_install_not_durable_witness : ¬ recovered_log_contains_acked_full := by
+/-- follower holds [1,2]; a snapshot with entries 1..4 is installed the old way; the leader's next
+    AppendEntries (prev = 4) is acknowledged with match_index 5; after a restart entries 3 and 4 are gone. -/
+theorem snapshot_install_not_durable_witness : ¬ recovered_log_contains_acked_old_install := by
   intro hall
   have := hall 0
-    [.ev (.appendEntries 1 1 0 0 [(1, 10), (1, 11)]),
-     .ev (.installSnapshot 4 1 [(1, 10), (1, 11), (1, 12), (1, 13)]),
-     .ev (.appendEntries 1 1 4 1 [(1, 14)])]
+    [.ev (.appendEntries 1 1 0 0 [(1, 10), (1, 11)])]
+    [.ev (.appendEntries 1 1 4 1 [(1, 14)])]
+    1 [(1, 10), (1, 11), (1, 12), (1, 13)]
     ⟨3, 1, 12⟩ (by decide)
   revert this
   decide
@@ -182,27 +201,52 @@ theorem append_after_torn_tail_witness :
 
 /-! ### non-vacuity: the hypotheses are satisfiable by non-trivial executions -/
 
-/-- a concrete history with an election, a granted vote, appends, a conflict truncation, a proposal and
-    two crashes (one in the middle of a handler) satisfies `NoSnapAct` and produces obligations -/
+/-- a concrete history with an election, a granted vote, appends, a conflict truncation, a proposal, a
+    snapshot install over a conflicting log with a local suffix beyond the snapshot index, a crash in
+    the middle of a second install and two more crashes -/
 def demoActs : List Act :=
   [.ev (.requestVote 1 2 0 0),
    .ev (.appendEntries 1 2 0 0 [(1, 10), (1, 11), (1, 12)]),
    .crash (.appendEntries 2 3 1 1 [(2, 20), (2, 21)]) 2,
    .ev (.appendEntries 2 3 1 1 [(2, 20), (2, 21)]),
    .ev .startElection, .ev .becomeLeader, .ev (.propose 30),
+   .ev (.installSnapshot 2 4 [(1, 10), (4, 40)]),
+   .ev (.appendEntries 4 1 2 4 [(4, 41)]),
+   .crash (.installSnapshot 3 5 [(1, 10), (5, 50), (5, 51)]) 3,
    .crash (.requestVote 9 4 9 9) 1]
 
-example : ∀ a ∈ demoActs, NoSnapAct a := by
-  intro a ha
-  simp only [demoActs, List.mem_cons, List.mem_nil_iff, or_false] at ha
-  rcases ha with rfl | rfl | rfl | rfl | rfl | rfl | rfl | rfl <;> simp [NoSnapAct, NoSnap]
 example : (exec (initSys 0) demoActs).ghost.votes = [(3, 0), (1, 2)] := by decide
 /-- the vote of term 1 really is re-requested by another candidate after the restart and refused -/
 example : (step (exec (initSys 0) [.ev (.requestVote 1 2 0 0), .crash (.requestVote 1 2 0 0) 0]).node
     (.requestVote 1 3 5 5)).reply = .vote 1 false := by decide
-example : (exec (initSys 0) demoActs).ghost.acked.length = 5 := by decide
+/-- before the first install: log [1:1:10, 2:2:20, 3:2:21, 4:3:30], all four acknowledged -/
+example : (exec (initSys 0) (demoActs.take 7)).node.log = [⟨1, 1, 10⟩, ⟨2, 2, 20⟩, ⟨3, 2, 21⟩, ⟨4, 3, 30⟩] := by decide
+/-- the install writes TV4, F1, F2, LT3; entries 2 (conflicting) and 3, 4 (beyond the snapshot) leave the
+    log and the obligations; memory and a restart agree on the snapshot -/
+example : recs (step (exec (initSys 0) (demoActs.take 7)).node (.installSnapshot 2 4 [(1, 10), (4, 40)])).micros
+    = [.termAndVote 4 none, .logEntryFull 1 1 [1, 1, 10], .logEntryFull 2 4 [2, 4, 40], .logTruncate 3] := by decide
+example : (exec (initSys 0) (demoActs.take 8)).node.log = [⟨1, 1, 10⟩, ⟨2, 4, 40⟩]
+    ∧ (restart 0 (fromEntries (exec (initSys 0) (demoActs.take 8)).dur)).log = [⟨1, 1, 10⟩, ⟨2, 4, 40⟩]
+    ∧ (⟨2, 2, 20⟩ : LogEntry) ∉ (exec (initSys 0) (demoActs.take 8)).ghost.acked
+    ∧ (⟨4, 3, 30⟩ : LogEntry) ∉ (exec (initSys 0) (demoActs.take 8)).ghost.acked
+    ∧ (⟨2, 4, 40⟩ : LogEntry) ∈ (exec (initSys 0) (demoActs.take 8)).ghost.acked := by decide
+/-- the hypothesis of `installed_snapshot_is_the_recovered_log` holds there -/
+example : (step (exec (initSys 0) (demoActs.take 7)).node (.installSnapshot 2 4 [(1, 10), (4, 40)])).reply
+    = .snapshot true := by decide
+/-- a stale snapshot (not newer than the installed one) and one whose metadata disagree with its last
+    entry are refused without writing anything -/
+example : (step (exec (initSys 0) (demoActs.take 8)).node (.installSnapshot 2 4 [(1, 10), (4, 40)])).micros = []
+    ∧ (step (exec (initSys 0) (demoActs.take 8)).node (.installSnapshot 3 4 [(1, 10), (4, 40)])).micros = [] := by decide
+/-- The second install dies after 3 micro steps (TV5, F1, F2 durable; F3 and LT4 not): the node restarts
+    with the snapshot's first two entries and its own third one — a log it never held in memory.  The
+    acknowledged entry 2:4:40 was released by the overwrite, 1:1:10 and 3:4:41 are still owed and there. -/
+theorem snapshot_install_not_atomic_witness :
+    (exec (initSys 0) (demoActs.take 10)).node.log = [⟨1, 1, 10⟩, ⟨2, 5, 50⟩, ⟨3, 4, 41⟩]
+    ∧ (exec (initSys 0) (demoActs.take 10)).node.term = 5
+    ∧ (exec (initSys 0) (demoActs.take 10)).ghost.acked.all
+        (fun a => a ∈ (exec (initSys 0) (demoActs.take 10)).node.log) = true
+    ∧ ⟨3, 4, 41⟩ ∈ (exec (initSys 0) (demoActs.take 10)).ghost.acked := by decide
 example : (exec (initSys 0) demoActs).node.term = 9 ∧ (exec (initSys 0) demoActs).node.votedFor = none := by decide
-example : (exec (initSys 0) demoActs).node.log = [⟨1, 1, 10⟩, ⟨2, 2, 20⟩, ⟨3, 2, 21⟩, ⟨4, 3, 30⟩] := by decide
 /-- `GoodSer` is satisfiable: a toy injective serializer -/
 def toySer : WalEntry → List Nat
   | .termChange t => [0, t]
